@@ -212,6 +212,18 @@ MUTANTS = [
     M("benign-parser-merged-return", ["C05", "C06", "C09", "C10"], (TK, '                if &s[2..3] == "s" {\n                    return Ok(HandRangeToken::new(\n                        HandRangeTokenKind::SingleRankPair(RankPair::Suited(high, kicker)),\n                        parse_probability(&s[3..]),\n                    ));\n                }\n\n                return Ok(HandRangeToken::new(\n                    HandRangeTokenKind::SingleRankPair(RankPair::Ofsuit(high, kicker)),\n                    parse_probability(&s[3..]),\n                ));\n', '                let pair = if &s[2..3] == "s" {\n                    RankPair::Suited(high, kicker)\n                } else {\n                    RankPair::Ofsuit(high, kicker)\n                };\n\n                return Ok(HandRangeToken::new(\n                    HandRangeTokenKind::SingleRankPair(pair),\n                    parse_probability(&s[3..]),\n                ));\n'), benign=True),
     M("c05-merged-return-swapped", ["C05"], (TK, '                if &s[2..3] == "s" {\n                    return Ok(HandRangeToken::new(\n                        HandRangeTokenKind::SingleRankPair(RankPair::Suited(high, kicker)),\n                        parse_probability(&s[3..]),\n                    ));\n                }\n\n                return Ok(HandRangeToken::new(\n                    HandRangeTokenKind::SingleRankPair(RankPair::Ofsuit(high, kicker)),\n                    parse_probability(&s[3..]),\n                ));\n', '                let pair = if &s[2..3] == "o" {\n                    RankPair::Suited(high, kicker)\n                } else {\n                    RankPair::Ofsuit(high, kicker)\n                };\n\n                return Ok(HandRangeToken::new(\n                    HandRangeTokenKind::SingleRankPair(pair),\n                    parse_probability(&s[3..]),\n                ));\n')),
     M("benign-c02-extract-scan-helper", ["C02", "C04", "C08"], (FE, '        let mut player_index_to_increment = None;\n\n        for i in 0..self.current_player_indexes.len() {\n            let ri = self.current_player_indexes.len() - i - 1;\n\n            if self.current_player_indexes[ri] + 1 < self.player_entries[ri].len() {\n                player_index_to_increment = Some(ri);\n\n                break;\n            }\n        }\n', '        let player_index_to_increment = self.player_to_advance();\n'), (FE, "\n#[cfg(test)]\nmod tests {", '\nimpl FlopExhaustiveEvaluatorIterator {\n    // the last player whose range still has an untried combo.\n    fn player_to_advance(&self) -> Option<usize> {\n        for i in 0..self.current_player_indexes.len() {\n            let ri = self.current_player_indexes.len() - i - 1;\n\n            if self.current_player_indexes[ri] + 1 < self.player_entries[ri].len() {\n                return Some(ri);\n            }\n        }\n\n        None\n    }\n}\n\n#[cfg(test)]\nmod tests {'), benign=True),
+    M("c17-run-absent-not-closing", ["C17", "C06"], (HRS, "                if probability.is_none() || probability.unwrap_or(&0_f32) != start_probability {\n                    let prev_rank = rank.prev().unwrap();", "                if probability.unwrap_or(&0_f32) != start_probability {\n                    let prev_rank = rank.prev().unwrap();")),
+    M("c17-run-weight-lt", ["C17"], (HRS, "                if probability.is_none() || probability.unwrap_or(&0_f32) != start_probability {\n                    let prev_rank = rank.prev().unwrap();", "                if probability.is_none() || probability.unwrap_or(&0_f32) < start_probability {\n                    let prev_rank = rank.prev().unwrap();")),
+    M("c17-run-plus-condition", ["C17"], (HRS, "                    if start_rank == Rank::Ace && prev_rank != Rank::Ace {", "                    if prev_rank != Rank::Ace {")),
+    M("c17-run-span-end", ["C17"], (HRS, "                            HandRangeTokenKind::DoubleClosedRankPairRange(\n                                RankPair::Pocket(start_rank),\n                                prev_rank,\n                            ),", "                            HandRangeTokenKind::DoubleClosedRankPairRange(\n                                RankPair::Pocket(start_rank),\n                                rank,\n                            ),")),
+    M("c17-run-weight-of-current", ["C17"], (HRS, "                            HandRangeTokenKind::SingleRankPair(RankPair::Pocket(prev_rank)),\n                            *start_probability,", "                            HandRangeTokenKind::SingleRankPair(RankPair::Pocket(prev_rank)),\n                            *probability.unwrap_or(start_probability),")),
+    M("c17-run-open-at-absent", ["C17"], (HRS, "            if pocket_start_rank.is_none() && probability.is_some() {", "            if pocket_start_rank.is_none() {")),
+    M("c17-run-no-reset", ["C17"], (HRS, "                    pocket_start_rank = None;\n", "")),
+    M("c17-last-run-not-closed", ["C17", "C06"], (HRS, "            if let Some(suited_start_rank) = suited_start_rank {", "            if let (Some(suited_start_rank), true) = (suited_start_rank, first_rank != Rank::Deuce) {")),
+    M("c17-sibling-divergence", ["C17"], (HRS, "                        if start_rank == first_rank && prev_rank != first_rank {\n                            tokens.push(HandRangeToken::new(\n                                HandRangeTokenKind::BottomClosedRankPairRange(RankPair::Ofsuit(", "                        if start_rank == first_rank {\n                            tokens.push(HandRangeToken::new(\n                                HandRangeTokenKind::BottomClosedRankPairRange(RankPair::Ofsuit(")),
+    M("c17-leftover-kicker-range", ["C17", "C06"], (HRS, "            for kicker_rank in RankRange::inclusive(high_rank, Rank::Deuce) {", "            for kicker_rank in RankRange::inclusive(high_rank.next().unwrap_or(Rank::Deuce), Rank::Deuce) {")),
+    M("c17-kicker-row-short", ["C17"], (HRS, "            for kicker in RankRange::inclusive(first_rank, Rank::Deuce) {\n                let probability = rank_pairs.get(&RankPair::Suited(high, kicker));", "            for kicker in RankRange::inclusive(first_rank, Rank::Trey) {\n                let probability = rank_pairs.get(&RankPair::Suited(high, kicker));")),
+    M("benign-c17-run-eq-form", ["C17", "C06"], (HRS, "                if probability.is_none() || probability.unwrap_or(&0_f32) != start_probability {\n                    let prev_rank = rank.prev().unwrap();", "                if probability.is_none() || !(probability.unwrap_or(&0_f32) == start_probability) {\n                    let prev_rank = rank.prev().unwrap();"), benign=True),
     M("c08-recursion", ["C08"], (FE, """        loop {
             if let Some(showdown) = self.next_deal()? {
                 return Some(showdown);
